@@ -13,6 +13,14 @@ IO_NATIVES = ("recv", "recvfrom", "send", "sendto", "accept")
 WAIT = "p_socket_io_condition_wait"
 
 
+def store_root(l):
+    """The variable a store goes through: `*address`, `address[0]` -> address."""
+    l = strip_casts(l)
+    while l is not None and l["k"] in ("idx", "un", "cast"):
+        l = strip_casts(l["base"] if l["k"] == "idx" else l["e"])
+    return l["name"] if l is not None and l["k"] == "ref" else None
+
+
 def switch_table(fn):
     """Map of argument value -> constant returned by a classifying function of one integer parameter (a switch, an if-chain, part
     of either moved into a static helper called from `default:`): the function is evaluated path by path under `param == v` for
@@ -280,8 +288,33 @@ def run(prog, rep):
         rep.ob("C09.3", fn, "address", ok and not inloop,
                "*address is built from (%s, %s), the objects filled in by recvfrom, after the retry loop" % (sa, sl) if ok and not inloop else
                "*address is built from (%s, %s) but recvfrom filled (%s, %s)%s" % (a0, a1, sa, sl, "; inside the retry loop" if inloop else ""), c)
-        # success only: every path to the construction passes the loop exit where recvfrom >= 0
-        results = []
+        # every datagram names its sender, an empty one included: no path on which recvfrom succeeded and the caller asked for the
+        # address returns without the construction (a zero-length datagram is a datagram: recvfrom == 0 is not "nothing received")
+        tgt = None
+        for (b2, i2, n) in fn.nodes():
+            if n["k"] == "asg" and any(x is c for x in calls(n["r"])):
+                tgt = store_root(n["l"])
+        skipped = []
+
+        def a_stmt(st, b2, i2, stmt):
+            facts, built = st
+            if any(x.get("callee") == "p_socket_address_new_from_native" for x in calls(stmt)):
+                built = True
+            if stmt["k"] == "ret" and not built and tgt is not None:
+                rv = guards.eval_const(stmt.get("e"), facts)
+                if not (rv is not None and rv < 0) and guards.lookup(facts, tgt) != 0 and guards.known_nonzero({"k": "ref", "name": tgt, "decl": "param"}, facts):
+                    skipped.append(line(stmt))
+            return [(guards.transfer(facts, stmt), built)]
+
+        def a_edge(st, b2, to, on):
+            f2 = guards.edge_assume(st[0], b2, on)
+            return None if f2 is None else (f2, st[1])
+        if tgt is not None:
+            Flow(fn, [(guards.EMPTY, False)], a_stmt, a_edge).run()
+        rep.ob("C09.3", fn, "address:every-datagram", tgt is not None and not skipped,
+               "every return that is not a failure constant and has %s != NULL comes after the construction" % tgt if tgt is not None and not skipped else
+               "line %d: returns a received length with %s != NULL but without building the sender address: the caller's pointer stays unset "
+               "(for instance after a zero-length datagram)" % (skipped[0], tgt) if skipped else "the store of the constructed address was not found", c)
     else:
         rep.ob("C09.3", fn, "address", False, "expected one recvfrom and one p_socket_address_new_from_native call", fn.loc[0])
     # every buffer the kernel writes a peer / local address into holds any family the socket can have, and the length object
@@ -320,7 +353,7 @@ def run(prog, rep):
                    "%s writes the address into %s (%s bytes, length object %s = %s): room for every family" % (c["callee"], bv, bsz, lv, sorted(set(lens))) if okb else
                    "line %d: %s writes the address into %s, which is %s bytes with the length object set to %s; an IPv6 address needs %d: it comes back truncated "
                    "while the reported length says %d, and the address constructor reads past the buffer" % (line(c), c["callee"], bv, bsz, sorted(set(str(x) for x in lens)), need, need), c)
-    rep.floor("C09.3", 1 + 4)
+    rep.floor("C09.3", 2 + 4)
 
     # C09.4 SIGPIPE
     sends = [(f, c) for f in u.functions.values() for (b, i, c) in f.calls() if c.get("callee") in ("send", "sendto")]
@@ -450,6 +483,10 @@ SELFTEST = [
         dict(file="src/psocket.c", old="\t\t\t\t     (struct sockaddr *) &sa,\n\t\t\t\t     &optlen)) < 0) {", new="\t\t\t\t     &sa,\n\t\t\t\t     &optlen)) < 0) {")]),
     dict(id="recvfrom-wrong-len-object", file="src/psocket.c", expect="C09.3",
          old="\t\t*address = p_socket_address_new_from_native (&sa, optlen);", new="\t\t*address = p_socket_address_new_from_native (&sa, sizeof (sa));"),
+    dict(id="sender-address-skipped-for-empty-datagram", file="src/psocket.c", expect="C09.3",
+         old="\tif (address != NULL)\n\t\t*address = p_socket_address_new_from_native (&sa, optlen);", new="\tif (address != NULL && ret > 0)\n\t\t*address = p_socket_address_new_from_native (&sa, optlen);"),
+    dict(id="sender-address-nonnegative-neutral", file="src/psocket.c", expect=None,
+         old="\tif (address != NULL)\n\t\t*address = p_socket_address_new_from_native (&sa, optlen);", new="\tif (ret >= 0 && address != NULL)\n\t\t*address = p_socket_address_new_from_native (&sa, optlen);"),
     dict(id="sigpipe-not-ignored", file="src/psocket.c", expect="C09.4",
          old="#  ifdef SIGPIPE\n\tsignal (SIGPIPE, SIG_IGN);\n#  endif", new=""),
     dict(id="connect-so-error-before-wait", file="src/psocket.c", expect="C09.6",
